@@ -1194,6 +1194,9 @@ def fixed_schemas():
     out["rgo"] = mk("rgo", [rg_old, holder()]); out["rgn"] = mk("rgn", [rg_new, holder()])
     out["f10o"] = mk("f10o", [Def("S", fields=[F(("ty", "u8"), 0), F(("ty", "u8"), 2)])])
     out["f10n"] = mk("f10n", [Def("S", fields=[F(("ty", "u8"), 0), F(("ty", "opt(u8)"), 1, tag=9), F(("ty", "u8"), 2)])])
+    # the same with a field that is optional only through a nil-aware codec (nz: u64, 0 = nil) and through an alias Option
+    out["f10co"] = mk("f10co", [Def("S", fields=[F(("ty", "u8"), 0), F(("ty", "u8"), 3)])])
+    out["f10cn"] = mk("f10cn", [Def("S", fields=[F(("ty", "u8"), 0), F(("sp", "nz"), 1, tag=9), F(("sp", "aliasoptu8"), 2, tag=1001), F(("ty", "u8"), 3)])])
     out["alias"] = mk("alias", [Def("S", enc="m", fields=[F(("sp", "aliasoptvec"), 0), F(("ty", "u8"), 1)]),
                                 Def("S", fields=[F(("ty", "u8"), 0), F(("sp", "aliasoptvec"), 1)])])
     # transparent newtypes over a field with a codec (the three impls must all honour it: seed C07-3 drops it in CborLen only)
@@ -1266,7 +1269,7 @@ def get_world(tier, rng):
     for sc in w.base[: max(10, nbase * 6 // 10)]:
         t, done = compat_edit(sc, r, sc.sid + "c")
         if done and not has_lt_change(sc, t): w.compat.append((sc, t, done))
-    w.compat += [(w.fixed["f9o"], w.fixed["f9n"], ["variant"]), (w.fixed["rgo"], w.fixed["rgn"], ["variant"]), (w.fixed["f10o"], w.fixed["f10n"], ["add"])]
+    w.compat += [(w.fixed["f9o"], w.fixed["f9n"], ["variant"]), (w.fixed["rgo"], w.fixed["rgn"], ["variant"]), (w.fixed["f10o"], w.fixed["f10n"], ["add"]), (w.fixed["f10co"], w.fixed["f10cn"], ["add"])]
     w.compat += [(w.fixed[p + "o"], w.fixed[p + "n"], ["variant"]) for p in ("aoa", "aom", "aoar", "aomr", "aoq", "hk")]
     w.mandatory = []         # (reader, writer lacking a mandatory field, (def, variant, idx))
     for sc in w.base[: max(10, nbase * 3 // 10)]:
